@@ -194,7 +194,71 @@ def build(variant="opt", quiet=False, targets=("kernels", "libawkward", "worker"
         lock.close()
 
 
+def build_l2(variant="opt", quiet=False):
+    """L2: libakworker.so (the worker's operations as an in-process library) and a staged `awkward` package whose
+    Python files are /repo/src/awkward's own (symlinks) with harness/l2/_ext.py standing in for the pybind11 extension."""
+    base = build(variant, quiet=quiet, targets=("kernels", "libawkward"))
+
+    def log(m):
+        if not quiet:
+            sys.stderr.write("[build l2] %s\n" % m)
+
+    import fcntl
+    lock = open(os.path.join(BUILD, ".lock-l2-" + variant), "w")
+    fcntl.flock(lock, fcntl.LOCK_EX)
+    try:
+        hdig = header_digest()
+        extra_inc = ensure_kernels_h(log)
+        srcs = _walk(os.path.join(HARNESS, "worker"), (".cpp",)) + _walk(os.path.join(HARNESS, "l2"), (".cpp",))
+        global COMMON
+        saved = COMMON
+        COMMON = COMMON + ["-DAKWORKER_SHARED"]
+        try:
+            objs = _compile_all(variant, srcs, extra_inc, hdig, log)
+        finally:
+            COMMON = saved
+        libdir = os.path.dirname(base["kernels"])
+        lib = _link(variant, "libakworker.so", objs,
+                    ["-L" + libdir, "-lawkward", "-lawkward-cpu-kernels", "-ldl", "-lpthread", "-Wl,-rpath," + libdir], log)
+        # ---- stage the package
+        pkgroot = os.path.join(BUILD, "l2", variant)
+        pkg = os.path.join(pkgroot, "awkward")
+        src = os.path.join(REPO, "src", "awkward")
+        stamp = _sha(lib, _read(lib + ".key") if os.path.exists(lib + ".key") else b"", src,
+                     *sorted(os.listdir(src)), _read(os.path.join(HARNESS, "l2", "_ext.py")))
+        stampf = os.path.join(pkgroot, ".stamp")
+        if not (os.path.exists(stampf) and _read(stampf).decode() == stamp):
+            subprocess.check_call(["rm", "-rf", pkgroot])
+            os.makedirs(pkg)
+            for name in os.listdir(src):
+                if name.startswith("_ext") or name == "__pycache__":
+                    continue
+                os.symlink(os.path.join(src, name), os.path.join(pkg, name))
+            os.symlink(os.path.join(HARNESS, "l2", "_ext.py"), os.path.join(pkg, "_ext.py"))
+            for f in (lib, base["libawkward"], base["kernels"]):
+                os.symlink(f, os.path.join(pkg, os.path.basename(f)))
+            with open(os.path.join(pkgroot, "pkg_resources.py"), "w") as f:
+                f.write("import os, sys\n\n\ndef resource_filename(pkg, name):\n"
+                        "    for p in sys.path:\n        f = os.path.join(p, pkg, name)\n"
+                        "        if os.path.exists(f) or name == '':\n            return f\n"
+                        "    raise FileNotFoundError(name)\n\n\n"
+                        "def iter_entry_points(*a, **k):\n    return []\n")
+            with open(stampf, "w") as f:
+                f.write(stamp)
+            log("staged package at " + pkg)
+        out = dict(base)
+        out["akworker_lib"] = lib
+        out["l2_path"] = pkgroot
+        return out
+    finally:
+        fcntl.flock(lock, fcntl.LOCK_UN)
+        lock.close()
+
+
 if __name__ == "__main__":
     vs = sys.argv[1:] or ["opt"]
     for v in vs:
-        print(build(v))
+        if v == "l2":
+            print(build_l2("opt"))
+        else:
+            print(build(v))
